@@ -1284,6 +1284,9 @@ func (in *Interp) indexAddr(fr *frame, x *ssa.IndexAddr) Value {
 		}
 		return Ptr{c: c, idx: idx}
 	case SliceV:
+		if b.arr == nil {
+			in.goPanicf("index out of range [%s] with length 0", Describe(idx, 40))
+		}
 		if !in.ex.Branch(Ult(idx, b.ln)) {
 			in.goPanicf("index out of range [%s] with length %s", Describe(idx, 40), Describe(b.ln, 40))
 		}
@@ -1405,6 +1408,9 @@ func (in *Interp) sliceOp(fr *frame, x *ssa.Slice) Value {
 		et := under(c.t).(*types.Array).Elem()
 		return SliceV{arr: c, off: lo, ln: Sub(hi, lo), cp: Sub(mx, lo), elem: et}
 	case SliceV:
+		if b.arr == nil {
+			b = nilSlice(b.elem)
+		}
 		if hi == nil {
 			hi = b.ln
 		}
@@ -1416,7 +1422,7 @@ func (in *Interp) sliceOp(fr *frame, x *ssa.Slice) Value {
 		check(Ule(hi, mx), "high > cap")
 		check(Ule(lo, hi), "low > high")
 		if b.arr == nil {
-			return SliceV{elem: b.elem}
+			return nilSlice(b.elem)
 		}
 		return SliceV{arr: b.arr, off: Add(b.off, lo), ln: Sub(hi, lo), cp: Sub(mx, lo), elem: b.elem}
 	case Poison:
@@ -1850,7 +1856,7 @@ func (in *Interp) appendOp(dstv, srcv Value, site *ssa.CallCommon) Value {
 	case SliceV:
 		if s.arr == nil {
 			if dst.arr == nil {
-				return SliceV{elem: et}
+				return nilSlice(et)
 			}
 			return dst
 		}
